@@ -418,8 +418,31 @@ def C19(V, tier):
     r = tlc_check(f"{SPEC}/comp/ExecGraph.tla", f"{SPEC}/mc/ExecGraph_finding.cfg", wd, "finding",
                   workers=4, coverage=False)
     V.coverage["finding_config_still_fails"] = r["invariant_violated"] == "ForwardOK"
+    # replication algebra: spec/comp/Replication.tla (coded match = meet of the restrictiveness order,
+    # checked by TLC) generates every pair; the real `Replication::intersect` must agree on each
+    r = tlc_check(f"{SPEC}/comp/Replication.tla", f"{SPEC}/mc/Replication.cfg", wd, "replication",
+                  workers=2, coverage=False)
+    if not r["ok"]:
+        raise ToolError("Replication.tla: the coded match is not the meet of the order")
+    alg_pairs = r["replays"]
+    if len(alg_pairs) < 64:
+        raise ToolError(f"Replication.tla generated only {len(alg_pairs)} pairs")
+    alg_case = {"id": "algebra", "algebra": alg_pairs, "cfg": {"mode": "local", "par": 1}}
     cases = graph_cases(tier, rng)
-    results, _ = run_jobs(cases, wd, cmd="graph", timeout=600)
+    results, _ = run_jobs(cases + [alg_case], wd, cmd="graph", timeout=600)
+    got = results.get("algebra")
+    if got is None or len(got.get("algebra", [])) != len(alg_pairs):
+        raise ToolError("no result for the replication algebra case")
+    for exp, g in zip(alg_pairs, got["algebra"]):
+        want = exp["r"]["k"] if exp["r"]["k"] != "Limited" else f"Limited({exp['r']['n']})"
+        if g["r"] != want:
+            V.add_violation({"prop": "C19", "kind": "replication_intersect", "a": exp["a"], "b": exp["b"],
+                             "expected": want, "got": g["r"],
+                             "detail": "Replication::intersect is not the more restrictive of the two "
+                                       "requirements (Replication.tla!Meet): a block gets more replicas "
+                                       "than one of its operators allows"},
+                            replay=alg_case)
+    V.coverage["replication_pairs_checked"] = len(alg_pairs)
     # vh graph writes results to the "results" path and nothing to the trace path
     recs = []
     for c in cases:
